@@ -203,6 +203,14 @@ HUNKS = {
     ],
     "runtime/time.go": [
         ("replace", "t.rand = cheaprand()", "t.rand = simtimerrand()"),
+        # a fake timer that is already due when it is armed (time.After(0), a
+        # negative duration) fires one nanosecond later instead of "now": code that
+        # loops on zero-length sleeps until the clock moves (client pinger when the
+        # remaining keep-alive window is exactly zero) would otherwise spin forever,
+        # because virtual time only advances when every goroutine is blocked
+        ("replace",
+         "\tif period < 0 {\n\t\tthrow(\"timer period must be non-negative\")\n\t}\n\tasync := debug.asynctimerchan.Load() != 0\n",
+         "\tif period < 0 {\n\t\tthrow(\"timer period must be non-negative\")\n\t}\n\tif t.isFake && simrandOn != 0 {\n\t\tif b := getg().bubble; b != nil && when <= b.now {\n\t\t\twhen = b.now + 1\n\t\t}\n\t}\n\tasync := debug.asynctimerchan.Load() != 0\n"),
     ],
     "runtime/alg.go": [
         ("replace",
